@@ -1,6 +1,6 @@
 /* C11 6.5.3.2p3: &A has type "pointer to A"; for an array A c2m types it like the decayed A (pointer to the ELEMENT), so
    `&g[1] + 1`, `&g + 1`, `&s.v + 1` move by one element instead of one array -- at compile time (static initialisers) and at
-   run time alike.  gcc prints "32 48 32 1"; c2m (at /repo 166dfacf) "20 16 20 0".  Not run by ./check C07 (pending: no fix yet);
+   run time alike.  gcc prints "32 48 32 1"; c2m (at /repo 166dfacf) "20 16 20 0".  Known finding (KNOWN_FINDINGS.txt), run by part B as the witness;
    tools/gen_c07_addr.py keeps ADDR_OF_ARRAY_ARITH off while the probe in checks/c07.py ADDR_PROBES fails. */
 #include <stdio.h>
 int g[3][4];
